@@ -262,5 +262,7 @@ class Graph:
         from qiskit import QuantumCircuit
         qc = QuantumCircuit(self.num_vertices)
         qc.h(range(self.num_vertices))
-        qc.cz(*zip(*self.get_edges()))
+        edges = self.get_edges()
+        if len(edges) != 0:
+            qc.cz(*zip(*edges))
         return qc
